@@ -342,6 +342,7 @@ def run(chk):
     nuf = sum(1 for cs in CASES_SEEN for c in cs if "uf=-" not in c)
     nrg = sum(1 for cs in CASES_SEEN for c in cs if "uf=" in c and "uf=-" not in c and
               any(not u.endswith(":0:4294967295") for u in re.search(r"uf=(\S+)", c).group(1).split(",")))
+    chk.note("texts_of_70_to_300_glyphs_compared", sum(1 for cs in CASES_SEEN for c in cs if c.split("text=", 1)[1].split(" ", 1)[0].count(",") >= 69))
     chk.note("user_features", {"fonts_with_feat": sum(1 for v in FEATS.values() if v != "None"), "fonts": len(FEATS),
                                "cases_with_user_features": nuf, "cases_with_range_restricted_features": nrg,
                                "cases_whose_result_depends_on_the_features": len(FX)})
